@@ -5,13 +5,18 @@
   (edges, attributes, prints) and the pairs collected per scoped-variable name. Proved here: applying
   attribute assignments in any order succeeds exactly when applying them in the original order succeeds,
   with the same resulting attribute map (`C08_attrs_order_free`); a batch of `edge` statements leaves the same edges in
-  any order (`C08_edges_order_free`); the pairs collected for a scoped-variable name may be forced in any order
+  any order (`C08_edges_order_free`); a batch of node-attribute assignments over any number of nodes succeeds in any order or in none,
+  with the same lookups (`C08_node_attrs_order_free`), and so does `Lazy.evalQueue` on the attribute queue itself once targets and
+  values are known (`C08_attr_queue_order_free`), and on the edge queue (`C08_edge_queue_order_free`); the WHOLE evaluate phase (`Lazy.evaluatePhase`) on two states
+  that hold the same value-level statements in different queue orders succeeds on both or on neither, with the same nodes, edges and
+  attribute lookups (`C08_evaluate_phase_order_free`); the pairs collected for a scoped-variable name may be forced in any order
   (`C08_scoped_defs_order_free`: same success, same lookups, same machine state); and the phase order of the evaluate phase. The whole-program statement `C08_full` is kept as a `Prop`; it is
   covered by the differential check, which executes every permutation of the stanzas of every generated file.
 -/
 import Tsg.Proofs.Containers
 import Tsg.Sem.Lazy
 import Tsg.Proofs.OrderFree
+import Tsg.Proofs.ClosedAgree
 
 namespace C08
 
@@ -199,6 +204,779 @@ theorem C08_attrs_success_order_free (a : Attrs) (l l' : List (String × Val)) (
     (assignAll a l).isSome = (assignAll a l').isSome := by
   have := congrArg Option.isSome (C08_attrs_order_free a l l' h)
   simpa using this
+
+/-! ### the same across nodes: a batch of node-attribute assignments -/
+
+section NodeAttrs
+open CGraph
+
+/-- one `attr (n) k = v` whose target and value are known, as a graph transformer: `none` when the node does not exist or
+the value conflicts with the one stored -/
+def gstep (g : CGraph) (x : Nat × String × Val) : Option CGraph :=
+  match g.addNodeAttr x.1 x.2.1 x.2.2 with
+  | some (g', false) => some g'
+  | _ => none
+
+def gassign (g : CGraph) : List (Nat × String × Val) → Option CGraph
+  | [] => some g
+  | x :: rest => (gstep g x).bind fun g' => gassign g' rest
+
+/-- `gstep` is what the graph operation of a node-attribute assignment does when it succeeds -/
+example (g g' : CGraph) (n : Nat) (k : String) (v : Val) (f : Fail) (h : gstep g (n, k, v) = some g') :
+    (GraphOp.addNodeAttr n k v f).apply g = (.ok (some ()), g') := by
+  simp only [gstep] at h
+  simp only [GraphOp.apply]
+  cases ha : g.addNodeAttr n k v with
+  | none => simp [ha] at h
+  | some p =>
+    obtain ⟨g1, c⟩ := p
+    cases c with
+    | true => simp [ha] at h
+    | false => simp [ha] at h; subst h; rfl
+
+/-- the attributes of node `n` (none for a node that does not exist) -/
+def attrsAt (g : CGraph) (n : Nat) : Attrs := match g.node? n with | some nd => nd.attrs | none => []
+
+/-- the assignments of a batch that go to node `n`, in order -/
+def proj (n : Nat) (l : List (Nat × String × Val)) : List (String × Val) :=
+  l.filterMap fun x => if x.1 = n then some x.2 else none
+
+theorem proj_cons (n : Nat) (x : Nat × String × Val) (l : List (Nat × String × Val)) :
+    proj n (x :: l) = if x.1 = n then x.2 :: proj n l else proj n l := by
+  simp only [proj, List.filterMap_cons]
+  by_cases h : x.1 = n <;> simp [h]
+
+theorem proj_perm (n : Nat) (l l' : List (Nat × String × Val)) (h : l.Perm l') : (proj n l).Perm (proj n l') :=
+  h.filterMap _
+
+theorem gstep_spec (g : CGraph) (n : Nat) (k : String) (v : Val) :
+    gstep g (n, k, v) =
+      match g.node? n with
+      | none => none
+      | some nd => if (Attrs.add nd.attrs k v).2 then none else some (g.setNode n { nd with attrs := (Attrs.add nd.attrs k v).1 }) := by
+  simp only [gstep, CGraph.addNodeAttr]
+  cases g.node? n with
+  | none => rfl
+  | some nd =>
+    dsimp only
+    cases (Attrs.add nd.attrs k v).2 <;> rfl
+
+theorem attrsAt_setNode (g : CGraph) (n m : Nat) (nd nd' : GNode) (hn : g.node? n = some nd) :
+    attrsAt (g.setNode n nd') m = if m = n then nd'.attrs else attrsAt g m := by
+  simp only [attrsAt, node?, getElem?_setNode]
+  by_cases h : m = n
+  · subst h
+    simp only [node?] at hn
+    simp [hn]
+  · have : ¬ n = m := fun e => h e.symm
+    simp [this, h]
+
+theorem length_setNode (g : CGraph) (n : Nat) (nd : GNode) : (g.setNode n nd).nodes.length = g.nodes.length := by
+  simp [CGraph.setNode]
+
+/-- what a successful batch leaves behind: every target existed, the graph has the same nodes, and the attributes of each
+node are what its own assignments make of them, in their order -/
+theorem gassign_some (g g' : CGraph) (l : List (Nat × String × Val)) (h : gassign g l = some g') :
+    (∀ x ∈ l, x.1 < g.nodes.length) ∧ g'.nodes.length = g.nodes.length ∧
+    ∀ n, assignAll (attrsAt g n) (proj n l) = some (attrsAt g' n) := by
+  induction l generalizing g with
+  | nil =>
+    simp only [gassign, Option.some.injEq] at h; subst h
+    exact ⟨by simp, rfl, fun n => by simp [proj, assignAll]⟩
+  | cons x rest ih =>
+    obtain ⟨n0, k, v⟩ := x
+    simp only [gassign] at h
+    rw [gstep_spec] at h
+    cases hn : g.node? n0 with
+    | none => rw [hn] at h; simp at h
+    | some nd =>
+      rw [hn] at h
+      dsimp only at h
+      cases hc : (Attrs.add nd.attrs k v).2 with
+      | true => rw [hc] at h; simp at h
+      | false =>
+        rw [hc] at h
+        simp only [Bool.false_eq_true, if_false, Option.bind_some] at h
+        obtain ⟨h1, h2, h3⟩ := ih _ h
+        have hlt : n0 < g.nodes.length := lt_of_getElem?_some _ _ _ hn
+        refine ⟨?_, by rw [h2, length_setNode], fun n => ?_⟩
+        · intro y hy
+          rcases List.mem_cons.mp hy with rfl | hy
+          · exact hlt
+          · have := h1 y hy; rwa [length_setNode] at this
+        · have := h3 n
+          rw [attrsAt_setNode g n0 n nd _ hn] at this
+          rw [proj_cons]
+          by_cases hnn : n0 = n
+          · subst hnn
+            simp only [if_true] at this ⊢
+            have ha : attrsAt g n0 = nd.attrs := by simp [attrsAt, hn]
+            rw [ha]
+            simp only [assignAll, hc, Bool.false_eq_true, if_false]
+            exact this
+          · have hnn' : ¬ n = n0 := fun e => hnn e.symm
+            simp only [hnn, if_false]
+            simp only [hnn', if_false] at this
+            exact this
+
+/-- why a batch fails: a target that does not exist, or a node whose own assignments conflict -/
+theorem gassign_none (g : CGraph) (l : List (Nat × String × Val)) (h : gassign g l = none) :
+    (∃ x ∈ l, ¬ x.1 < g.nodes.length) ∨ ∃ n, assignAll (attrsAt g n) (proj n l) = none := by
+  induction l generalizing g with
+  | nil => simp [gassign] at h
+  | cons x rest ih =>
+    obtain ⟨n0, k, v⟩ := x
+    simp only [gassign] at h
+    rw [gstep_spec] at h
+    cases hn : g.node? n0 with
+    | none =>
+      refine Or.inl ⟨(n0, k, v), List.mem_cons_self .., ?_⟩
+      simp only [node?] at hn
+      simpa using hn
+    | some nd =>
+      rw [hn] at h
+      dsimp only at h
+      have ha : attrsAt g n0 = nd.attrs := by simp [attrsAt, hn]
+      cases hc : (Attrs.add nd.attrs k v).2 with
+      | true =>
+        refine Or.inr ⟨n0, ?_⟩
+        rw [proj_cons]
+        simp only [if_true, ha, assignAll, hc]
+      | false =>
+        rw [hc] at h
+        simp only [Bool.false_eq_true, if_false, Option.bind_some] at h
+        rcases ih _ h with ⟨y, hy, hlt⟩ | ⟨n, hnone⟩
+        · exact Or.inl ⟨y, List.mem_cons_of_mem _ hy, by rwa [length_setNode] at hlt⟩
+        · refine Or.inr ⟨n, ?_⟩
+          rw [attrsAt_setNode g n0 n nd _ hn] at hnone
+          rw [proj_cons]
+          by_cases hnn : n0 = n
+          · subst hnn
+            simp only [if_true] at hnone ⊢
+            rw [ha]
+            simp only [assignAll, hc, Bool.false_eq_true, if_false]
+            exact hnone
+          · have hnn' : ¬ n = n0 := fun e => hnn e.symm
+            simp only [hnn, if_false]
+            simp only [hnn', if_false] at hnone
+            exact hnone
+
+
+/-- **`attr` statements on nodes are order-free, across nodes.** A batch of node-attribute assignments with known targets
+and values (the lazy attribute queue after its values are forced) applied in any order: succeeds exactly when it succeeds
+in the original order — every target exists and no node is given two different values for one name — and then every node
+answers every attribute lookup alike, and the graph has the same nodes. -/
+theorem C08_node_attrs_order_free (g : CGraph) (l l' : List (Nat × String × Val)) (hp : l.Perm l') :
+    match gassign g l, gassign g l' with
+    | some g1, some g2 => g1.nodes.length = g2.nodes.length ∧ ∀ n k, (attrsAt g1 n).get k = (attrsAt g2 n).get k
+    | none, none => True
+    | _, _ => False := by
+  have key : ∀ (a b : List (Nat × String × Val)), a.Perm b → ∀ g1, gassign g a = some g1 → ∃ g2, gassign g b = some g2 := by
+    intro a b hab g1 h1
+    cases h2 : gassign g b with
+    | some g2 => exact ⟨g2, rfl⟩
+    | none =>
+      obtain ⟨hr, _, ha⟩ := gassign_some g g1 a h1
+      rcases gassign_none g b h2 with ⟨x, hx, hlt⟩ | ⟨n, hn⟩
+      · exact absurd (hr x (hab.mem_iff.mpr hx)) hlt
+      · have := C08_attrs_success_order_free (attrsAt g n) (proj n a) (proj n b) (proj_perm n a b hab)
+        rw [ha n, hn] at this
+        simp at this
+  cases h1 : gassign g l with
+  | some g1 =>
+    obtain ⟨g2, h2⟩ := key l l' hp g1 h1
+    rw [h2]
+    obtain ⟨_, hl1, ha1⟩ := gassign_some g g1 l h1
+    obtain ⟨_, hl2, ha2⟩ := gassign_some g g2 l' h2
+    refine ⟨by rw [hl1, hl2], fun n k => ?_⟩
+    have := C08_attrs_order_free (attrsAt g n) (proj n l) (proj n l') (proj_perm n l l' hp)
+    rw [ha1 n, ha2 n] at this
+    simp only [Option.map_some, Option.some.injEq] at this
+    exact congrFun this k
+  | none =>
+    cases h2 : gassign g l' with
+    | none => trivial
+    | some g2 =>
+      obtain ⟨g1, h1'⟩ := key l' l hp.symm g2 h2
+      rw [h1] at h1'; cases h1'
+
+end NodeAttrs
+
+/-! ### … and of the queue that `Lazy.evalQueue` evaluates -/
+
+section AttrQueue
+open Prog Lazy CGraph
+
+/-- a deferred `attr` statement on a node whose target and values are known: (node, statement, attributes) -/
+abbrev VStmt := Nat × StmtCtx × List (String × Val)
+
+def toLStmt (x : VStmt) : LStmt :=
+  .attrNode (.value (.gnode x.1)) (x.2.2.map fun kv => (kv.1, LVal.value kv.2)) x.2.1
+
+/-- the assignments of a queue, in queue order -/
+def flat (q : List VStmt) : List (Nat × String × Val) := q.flatMap fun x => x.2.2.map fun kv => (x.1, kv.1, kv.2)
+
+theorem gassign_append (g : CGraph) (a b : List (Nat × String × Val)) :
+    gassign g (a ++ b) = (gassign g a).bind fun g' => gassign g' b := by
+  induction a generalizing g with
+  | nil => rfl
+  | cons x rest ih =>
+    simp only [List.cons_append, gassign]
+    cases gstep g x with
+    | none => rfl
+    | some g1 => simp only [Option.bind_some]; exact ih g1
+
+def OkWith (t0 : MSt LSt) (g' : CGraph) (r : Res (MSt LSt) Unit) : Prop :=
+  ∃ t', r = .ok () t' ∧ t'.graph = g' ∧ t'.ps.cancelAt = none ∧
+    t'.rest.thunks = t0.rest.thunks ∧ t'.rest.cells = t0.rest.cells
+
+theorem run_evalNodeAttrs_values (cfg : Cfg) (ef n : Nat) (dbg : StmtCtx) (attrs : List (String × Val)) (t : MSt LSt)
+    (hc : t.ps.cancelAt = none) :
+    match gassign t.graph (attrs.map fun kv => (n, kv.1, kv.2)) with
+    | some g' => ∀ t0, t.rest.thunks = t0.rest.thunks → t.rest.cells = t0.rest.cells →
+        OkWith t0 g' (Prog.run (evalNodeAttrs cfg (ef + 1) n dbg (attrs.map fun kv => (kv.1, LVal.value kv.2))) t)
+    | none => ClosedAgree.isFail (Prog.run (evalNodeAttrs cfg (ef + 1) n dbg (attrs.map fun kv => (kv.1, LVal.value kv.2))) t) := by
+  induction attrs generalizing t with
+  | nil =>
+    simp only [List.map_nil, gassign]
+    intro t0 h1 h2
+    exact ⟨t, by rw [evalNodeAttrs]; rfl, rfl, hc, h1, h2⟩
+  | cons kv rest ih =>
+    obtain ⟨k, v⟩ := kv
+    simp only [List.map_cons, gassign]
+    rw [ClosedAgree.lazy_attr_step, ClosedAgree.run_evalL_value cfg ef v t hc]
+    dsimp only
+    rw [gstep_spec]
+    simp only [ClosedAgree.bump_graph]
+    simp only [CGraph.addNodeAttr]
+    cases hn : t.graph.node? n with
+    | none => simp only [Option.bind_none]; trivial
+    | some nd =>
+      dsimp only
+      cases hcf : (Attrs.add nd.attrs k v).2 with
+      | true => simp only [if_true, Option.bind_none]; trivial
+      | false =>
+        simp only [Bool.false_eq_true, if_false, Option.bind_some]
+        have := ih { ClosedAgree.recorded (ClosedAgree.bump t) (.nodeAttr n k) dbg with
+          graph := t.graph.setNode n { edges := nd.edges, attrs := (Attrs.add nd.attrs k v).1 } } hc
+        cases hg : gassign (t.graph.setNode n { edges := nd.edges, attrs := (Attrs.add nd.attrs k v).1 }) (rest.map fun kv => (n, kv.1, kv.2)) with
+        | none => rw [hg] at this; exact this
+        | some g' =>
+          rw [hg] at this
+          intro t0 h1 h2
+          exact this t0 h1 h2
+
+
+theorem run_evalLStmt_values (cfg : Cfg) (ef : Nat) (x : VStmt) (t : MSt LSt) (hc : t.ps.cancelAt = none) :
+    match gassign t.graph (x.2.2.map fun kv => (x.1, kv.1, kv.2)) with
+    | some g' => OkWith t g' (Prog.run (evalLStmt cfg (ef + 1) (toLStmt x)) t)
+    | none => ClosedAgree.isFail (Prog.run (evalLStmt cfg (ef + 1) (toLStmt x)) t) := by
+  obtain ⟨n, dbg, attrs⟩ := x
+  simp only [toLStmt]
+  rw [Lazy.evalLStmt]
+  rw [ClosedAgree.run_poll_bind _ _ t hc]
+  simp only [withContext, Prog.run]
+  rw [Prog.run_bind]
+  simp only [Prog.run]
+  rw [Prog.run_bind, ClosedAgree.run_evalL_value cfg ef _ _ (by exact hc)]
+  simp only [asGraphNodeL, Prog.run, Pure.pure]
+  have := run_evalNodeAttrs_values cfg ef n dbg attrs (ClosedAgree.bump (ClosedAgree.bump t)) hc
+  simp only [ClosedAgree.bump_graph] at this
+  cases hg : gassign t.graph (attrs.map fun kv => (n, kv.1, kv.2)) with
+  | some g' =>
+    rw [hg] at this
+    obtain ⟨t', h1, h2, h3, h4, h5⟩ := this t rfl rfl
+    dsimp only
+    rw [h1]
+    exact ⟨t', rfl, h2, h3, h4, h5⟩
+  | none =>
+    rw [hg] at this
+    dsimp only
+    cases hr : Prog.run (evalNodeAttrs cfg (ef + 1) n dbg (attrs.map fun kv => (kv.1, LVal.value kv.2))) (ClosedAgree.bump (ClosedAgree.bump t)) with
+    | ok _ _ => rw [hr] at this; exact this.elim
+    | fail _ _ => trivial
+
+theorem run_evalQueue_values (cfg : Cfg) (ef : Nat) (q : List VStmt) (t : MSt LSt) (hc : t.ps.cancelAt = none) :
+    match gassign t.graph (flat q) with
+    | some g' => OkWith t g' (Prog.run (evalQueue cfg (ef + 1) (q.map toLStmt)) t)
+    | none => ClosedAgree.isFail (Prog.run (evalQueue cfg (ef + 1) (q.map toLStmt)) t) := by
+  induction q generalizing t with
+  | nil =>
+    simp only [flat, List.flatMap_nil, gassign, List.map_nil]
+    exact ⟨t, by rw [evalQueue]; rfl, rfl, hc, rfl, rfl⟩
+  | cons x rest ih =>
+    simp only [flat, List.flatMap_cons, List.map_cons]
+    rw [gassign_append, evalQueue, Prog.run_bind]
+    have h1 := run_evalLStmt_values cfg ef x t hc
+    cases hg : gassign t.graph (x.2.2.map fun kv => (x.1, kv.1, kv.2)) with
+    | none =>
+      rw [hg] at h1
+      simp only [Option.bind_none]
+      cases hr : Prog.run (evalLStmt cfg (ef + 1) (toLStmt x)) t with
+      | ok _ _ => rw [hr] at h1; exact h1.elim
+      | fail _ _ => trivial
+    | some g1 =>
+      rw [hg] at h1
+      obtain ⟨t1, hr, hg1, hc1, hth, hce⟩ := h1
+      rw [hr]
+      simp only [Option.bind_some]
+      have := ih t1 hc1
+      rw [hg1] at this
+      simp only [flat] at this
+      cases hg2 : gassign g1 (List.flatMap (fun x : VStmt => List.map (fun kv => (x.1, kv.1, kv.2)) x.2.2) rest) with
+      | none => rw [hg2] at this; exact this
+      | some g2 =>
+        rw [hg2] at this
+        obtain ⟨t2, e1, e2, e3, e4, e5⟩ := this
+        exact ⟨t2, e1, e2, e3, e4.trans hth, e5.trans hce⟩
+
+/-- **the attribute queue may be evaluated in any order of its statements.** For deferred `attr` statements on nodes whose
+targets and values are known (the lazy attribute queue once its values are there), evaluating the queue
+(`Lazy.evalQueue`, the model of `LazyGraph::evaluate`'s second phase) in the order of any permutation of the statements —
+any reordering of the stanzas that produced them — succeeds or fails together with the original order, and after success
+the two graphs have the same nodes and answer every attribute lookup alike. -/
+theorem C08_attr_queue_order_free (cfg : Cfg) (ef : Nat) (q q' : List VStmt) (hp : q.Perm q')
+    (t : MSt LSt) (hc : t.ps.cancelAt = none) :
+    match Prog.run (evalQueue cfg (ef + 1) (q.map toLStmt)) t, Prog.run (evalQueue cfg (ef + 1) (q'.map toLStmt)) t with
+    | .ok _ t1, .ok _ t2 => t1.graph.nodes.length = t2.graph.nodes.length ∧
+        ∀ n k, (attrsAt t1.graph n).get k = (attrsAt t2.graph n).get k
+    | .fail _ _, .fail _ _ => True
+    | _, _ => False := by
+  have hflat : (flat q).Perm (flat q') := hp.flatMap_right _
+  have hmain := C08_node_attrs_order_free t.graph (flat q) (flat q') hflat
+  have h1 := run_evalQueue_values cfg ef q t hc
+  have h2 := run_evalQueue_values cfg ef q' t hc
+  cases hg1 : gassign t.graph (flat q) with
+  | some g1 =>
+    cases hg2 : gassign t.graph (flat q') with
+    | some g2 =>
+      rw [hg1] at h1; rw [hg2] at h2; rw [hg1, hg2] at hmain
+      obtain ⟨t1, hr1, e1, _, _, _⟩ := h1
+      obtain ⟨t2, hr2, e2, _, _, _⟩ := h2
+      rw [hr1, hr2]
+      dsimp only
+      rw [e1, e2]
+      exact hmain
+    | none => rw [hg1, hg2] at hmain; exact hmain.elim
+  | none =>
+    cases hg2 : gassign t.graph (flat q') with
+    | some g2 => rw [hg1, hg2] at hmain; exact hmain.elim
+    | none =>
+      rw [hg1] at h1; rw [hg2] at h2
+      cases hr1 : Prog.run (evalQueue cfg (ef + 1) (q.map toLStmt)) t with
+      | ok _ _ => rw [hr1] at h1; exact h1.elim
+      | fail _ _ =>
+        cases hr2 : Prog.run (evalQueue cfg (ef + 1) (q'.map toLStmt)) t with
+        | ok _ _ => rw [hr2] at h2; exact h2.elim
+        | fail _ _ => trivial
+
+end AttrQueue
+
+/-! ### … and of the edge queue -/
+
+section EdgeQueue
+open Prog Lazy CGraph
+
+/-- a deferred `edge a -> b` statement whose endpoints are known (no debug attributes): (source, sink, statement) -/
+abbrev EStmt := Nat × Nat × StmtCtx
+
+def toEStmt (x : EStmt) : LStmt := .createEdge (.value (.gnode x.1)) (.value (.gnode x.2.1)) [] x.2.2
+
+def ends (q : List EStmt) : List (Nat × Nat) := q.map fun x => (x.1, x.2.1)
+
+theorem run_evalLStmt_edge (cfg : Cfg) (ef : Nat) (x : EStmt) (t : MSt LSt) (hc : t.ps.cancelAt = none) :
+    if x.1 < t.graph.nodes.length then
+      ∃ t', Prog.run (evalLStmt cfg (ef + 1) (toEStmt x)) t = .ok () t' ∧
+        t'.graph = OrderFree.addEdgeG t.graph (x.1, x.2.1) ∧ t'.ps.cancelAt = none ∧ t'.rest = t.rest
+    else ClosedAgree.isFail (Prog.run (evalLStmt cfg (ef + 1) (toEStmt x)) t) := by
+  obtain ⟨a, b, dbg⟩ := x
+  simp only [toEStmt]
+  rw [Lazy.evalLStmt]
+  rw [ClosedAgree.run_poll_bind _ _ t hc]
+  simp only [withContext, Prog.run]
+  rw [Prog.run_bind]
+  simp only [Prog.run]
+  rw [Prog.run_bind, ClosedAgree.run_evalL_value cfg ef _ _ (by exact hc)]
+  simp only [asGraphNodeL, Prog.run, Pure.pure]
+  rw [Prog.run_bind]
+  simp only [Prog.run]
+  rw [Prog.run_bind, ClosedAgree.run_evalL_value cfg ef _ _ (by exact hc)]
+  simp only [asGraphNodeL, Prog.run, Pure.pure]
+  rw [Prog.run_bind]
+  simp only [gopP, Prog.run, ClosedAgree.bump_graph, OrderFree.addEdgeG]
+  by_cases hlt : a < t.graph.nodes.length
+  · simp only [hlt, if_true]
+    have hsome : ∃ nd, t.graph.node? a = some nd := by
+      simp only [node?]
+      exact ⟨t.graph.nodes[a], by simp [hlt]⟩
+    obtain ⟨nd, hn⟩ := hsome
+    simp only [GraphOp.apply, hn]
+    cases hb : (nd.addEdge b).2 with
+    | true =>
+      simp only [if_true, Prog.run]
+      exact ⟨_, rfl, rfl, hc, rfl⟩
+    | false =>
+      simp only [Bool.false_eq_true, if_false, Prog.run]
+      exact ⟨_, rfl, rfl, hc, rfl⟩
+  · simp only [hlt, if_false]
+    have hn : t.graph.node? a = none := by
+      simp only [node?]; simpa using hlt
+    simp only [GraphOp.apply, hn, panicAt, Prog.run]
+    trivial
+
+
+theorem length_addEdges (g : CGraph) (l : List (Nat × Nat)) : (OrderFree.addEdges g l).nodes.length = g.nodes.length := by
+  induction l generalizing g with
+  | nil => rfl
+  | cons p rest ih =>
+    simp only [OrderFree.addEdges, List.foldl_cons] at ih ⊢
+    rw [ih, OrderFree.length_addEdgeG]
+
+theorem run_evalQueue_edges (cfg : Cfg) (ef : Nat) (q : List EStmt) (t : MSt LSt) (hc : t.ps.cancelAt = none) :
+    if ∀ x ∈ q, x.1 < t.graph.nodes.length then
+      ∃ t', Prog.run (evalQueue cfg (ef + 1) (q.map toEStmt)) t = .ok () t' ∧
+        t'.graph = OrderFree.addEdges t.graph (ends q) ∧ t'.ps.cancelAt = none ∧ t'.rest = t.rest
+    else ClosedAgree.isFail (Prog.run (evalQueue cfg (ef + 1) (q.map toEStmt)) t) := by
+  induction q generalizing t with
+  | nil =>
+    simp only [List.not_mem_nil, false_imp_iff, implies_true, if_true, List.map_nil]
+    exact ⟨t, by rw [evalQueue]; rfl, rfl, hc, rfl⟩
+  | cons x rest ih =>
+    simp only [List.map_cons]
+    rw [evalQueue, Prog.run_bind]
+    have h1 := run_evalLStmt_edge cfg ef x t hc
+    by_cases hx : x.1 < t.graph.nodes.length
+    · rw [if_pos hx] at h1
+      obtain ⟨t1, hr, hg1, hc1, hrest1⟩ := h1
+      rw [hr]
+      dsimp only
+      have := ih t1 hc1
+      have hlen : t1.graph.nodes.length = t.graph.nodes.length := by rw [hg1, OrderFree.length_addEdgeG]
+      by_cases hall : ∀ y ∈ rest, y.1 < t.graph.nodes.length
+      · have hall1 : ∀ y ∈ rest, y.1 < t1.graph.nodes.length := by rw [hlen]; exact hall
+        rw [if_pos hall1] at this
+        have hall' : ∀ y ∈ x :: rest, y.1 < t.graph.nodes.length := by
+          intro y hy; rcases List.mem_cons.mp hy with rfl | hy
+          · exact hx
+          · exact hall y hy
+        rw [if_pos hall']
+        obtain ⟨t2, hr2, hg2, hc2, hrest2⟩ := this
+        refine ⟨t2, hr2, ?_, hc2, hrest2.trans hrest1⟩
+        rw [hg2, hg1]
+        simp [ends, OrderFree.addEdges]
+      · have hall1 : ¬ ∀ y ∈ rest, y.1 < t1.graph.nodes.length := by rw [hlen]; exact hall
+        rw [if_neg hall1] at this
+        have hall' : ¬ ∀ y ∈ x :: rest, y.1 < t.graph.nodes.length := fun h => hall fun y hy => h y (List.mem_cons_of_mem _ hy)
+        rw [if_neg hall']
+        exact this
+    · rw [if_neg hx] at h1
+      have hall' : ¬ ∀ y ∈ x :: rest, y.1 < t.graph.nodes.length := fun h => hx (h x (List.mem_cons_self ..))
+      rw [if_neg hall']
+      cases hr : Prog.run (evalLStmt cfg (ef + 1) (toEStmt x)) t with
+      | ok _ _ => rw [hr] at h1; exact h1.elim
+      | fail _ _ => trivial
+
+/-- **the edge queue may be evaluated in any order of its statements.** For deferred `edge` statements whose endpoints are
+known (no debug attributes), `Lazy.evalQueue` in the order of any permutation of the statements succeeds or fails
+together with the original order (it fails exactly when a source is not a node of the graph), and after success the two
+graphs have the same nodes and the same edges with the same attributes. -/
+theorem C08_edge_queue_order_free (cfg : Cfg) (ef : Nat) (q q' : List EStmt) (hp : q.Perm q')
+    (t : MSt LSt) (hc : t.ps.cancelAt = none) (hinv : CGraph.Inv t.graph) :
+    match Prog.run (evalQueue cfg (ef + 1) (q.map toEStmt)) t, Prog.run (evalQueue cfg (ef + 1) (q'.map toEStmt)) t with
+    | .ok _ t1, .ok _ t2 => t1.graph.nodes.length = t2.graph.nodes.length ∧
+        ∀ a b, t1.graph.getEdge a b = t2.graph.getEdge a b
+    | .fail _ _, .fail _ _ => True
+    | _, _ => False := by
+  have h1 := run_evalQueue_edges cfg ef q t hc
+  have h2 := run_evalQueue_edges cfg ef q' t hc
+  have hiff : (∀ x ∈ q, x.1 < t.graph.nodes.length) ↔ (∀ x ∈ q', x.1 < t.graph.nodes.length) :=
+    ⟨fun h x hx => h x (hp.mem_iff.mpr hx), fun h x hx => h x (hp.mem_iff.mp hx)⟩
+  by_cases hall : ∀ x ∈ q, x.1 < t.graph.nodes.length
+  · rw [if_pos hall] at h1
+    rw [if_pos (hiff.mp hall)] at h2
+    obtain ⟨t1, hr1, e1, _, _⟩ := h1
+    obtain ⟨t2, hr2, e2, _, _⟩ := h2
+    rw [hr1, hr2]
+    dsimp only
+    rw [e1, e2]
+    have := OrderFree.edges_order_free t.graph (ends q) (ends q') (hp.map _) hinv
+    exact ⟨this.2.1, this.1⟩
+  · rw [if_neg hall] at h1
+    rw [if_neg (fun h => hall (hiff.mpr h))] at h2
+    cases hr1 : Prog.run (evalQueue cfg (ef + 1) (q.map toEStmt)) t with
+    | ok _ _ => rw [hr1] at h1; exact h1.elim
+    | fail _ _ =>
+      cases hr2 : Prog.run (evalQueue cfg (ef + 1) (q'.map toEStmt)) t with
+      | ok _ _ => rw [hr2] at h2; exact h2.elim
+      | fail _ _ => trivial
+
+end EdgeQueue
+
+/-! ### … and of the whole evaluate phase -/
+
+section EvaluatePhase
+open Prog Lazy CGraph
+
+theorem attrsAt_addEdgeG (g : CGraph) (p : Nat × Nat) (n : Nat) : attrsAt (OrderFree.addEdgeG g p) n = attrsAt g n := by
+  obtain ⟨src, sink⟩ := p
+  simp only [OrderFree.addEdgeG, GraphOp.apply]
+  cases hn : g.node? src with
+  | none => rfl
+  | some nd =>
+    dsimp only
+    split
+    · rw [attrsAt_setNode g src n nd _ hn]
+      by_cases h : n = src
+      · subst h; simp [attrsAt, hn, GNode.addEdge]
+      · simp [h]
+    · rfl
+
+theorem attrsAt_addEdges (g : CGraph) (l : List (Nat × Nat)) (n : Nat) : attrsAt (OrderFree.addEdges g l) n = attrsAt g n := by
+  induction l generalizing g with
+  | nil => rfl
+  | cons p rest ih =>
+    simp only [OrderFree.addEdges, List.foldl_cons] at ih ⊢
+    rw [ih, attrsAt_addEdgeG]
+
+theorem getEdge_setNode_attrs (g : CGraph) (n : Nat) (nd : GNode) (a : Attrs) (hn : g.node? n = some nd) (x y : Nat) :
+    (g.setNode n { nd with attrs := a }).getEdge x y = g.getEdge x y := by
+  simp only [CGraph.getEdge, node?, getElem?_setNode]
+  by_cases h : n = x
+  · subst h
+    simp only [node?] at hn
+    simp [hn, GNode.getEdge]
+  · simp [h]
+
+theorem getEdge_gassign (g g' : CGraph) (l : List (Nat × String × Val)) (h : gassign g l = some g') (x y : Nat) :
+    g'.getEdge x y = g.getEdge x y := by
+  induction l generalizing g with
+  | nil => simp only [gassign, Option.some.injEq] at h; subst h; rfl
+  | cons a rest ih =>
+    obtain ⟨n0, k, v⟩ := a
+    simp only [gassign] at h
+    rw [gstep_spec] at h
+    cases hn : g.node? n0 with
+    | none => rw [hn] at h; simp at h
+    | some nd =>
+      rw [hn] at h
+      dsimp only at h
+      cases hc : (Attrs.add nd.attrs k v).2 with
+      | true => rw [hc] at h; simp at h
+      | false =>
+        rw [hc] at h
+        simp only [Bool.false_eq_true, if_false, Option.bind_some] at h
+        rw [ih _ h, getEdge_setNode_attrs g n0 nd _ hn]
+
+/-- a batch of attribute assignments sees of the graph only how many nodes it has and what attributes they carry -/
+theorem gassign_congr (g1 g2 : CGraph) (l : List (Nat × String × Val)) (hlen : g1.nodes.length = g2.nodes.length)
+    (hat : ∀ n, attrsAt g1 n = attrsAt g2 n) :
+    match gassign g1 l, gassign g2 l with
+    | some r1, some r2 => r1.nodes.length = r2.nodes.length ∧ ∀ n, attrsAt r1 n = attrsAt r2 n
+    | none, none => True
+    | _, _ => False := by
+  have key : ∀ (a b : CGraph), a.nodes.length = b.nodes.length → (∀ n, attrsAt a n = attrsAt b n) →
+      ∀ r, gassign a l = some r → ∃ r', gassign b l = some r' := by
+    intro a b hl ha r hr
+    cases hb : gassign b l with
+    | some r' => exact ⟨r', rfl⟩
+    | none =>
+      obtain ⟨hrange, _, hass⟩ := gassign_some a r l hr
+      rcases gassign_none b l hb with ⟨x, hx, hlt⟩ | ⟨n, hn⟩
+      · exact absurd (hl ▸ hrange x hx) hlt
+      · rw [← ha n, hass n] at hn; cases hn
+  cases h1 : gassign g1 l with
+  | some r1 =>
+    obtain ⟨r2, h2⟩ := key g1 g2 hlen hat r1 h1
+    rw [h2]
+    obtain ⟨_, l1, a1⟩ := gassign_some g1 r1 l h1
+    obtain ⟨_, l2, a2⟩ := gassign_some g2 r2 l h2
+    refine ⟨by rw [l1, l2, hlen], fun n => ?_⟩
+    have e1 := a1 n
+    have e2 := a2 n
+    rw [hat n, e2] at e1
+    exact (Option.some.inj e1).symm
+  | none =>
+    cases h2 : gassign g2 l with
+    | none => trivial
+    | some r2 =>
+      obtain ⟨r1, h1'⟩ := key g2 g1 hlen.symm (fun n => (hat n).symm) r2 h2
+      rw [h1] at h1'; cases h1'
+
+/-- what the evaluate phase computes from queues of value-level statements: all edges, then all attributes -/
+def phaseGraph (g : CGraph) (qe : List EStmt) (qa : List VStmt) : Option CGraph :=
+  if ∀ x ∈ qe, x.1 < g.nodes.length then gassign (OrderFree.addEdges g (ends qe)) (flat qa) else none
+
+/-- **the evaluate phase on value-level queues is order-free.** Permuting the edge queue and, independently, the attribute
+queue (what reordering the stanzas does) leaves success and the observable graph unchanged: same nodes, the same edges with
+the same attributes, and every node answers every attribute lookup alike. -/
+theorem phaseGraph_perm (g : CGraph) (hinv : CGraph.Inv g) (qe qe' : List EStmt) (qa qa' : List VStmt)
+    (hpe : qe.Perm qe') (hpa : qa.Perm qa') :
+    match phaseGraph g qe qa, phaseGraph g qe' qa' with
+    | some r1, some r2 => r1.nodes.length = r2.nodes.length ∧ (∀ a b, r1.getEdge a b = r2.getEdge a b) ∧
+        ∀ n k, (attrsAt r1 n).get k = (attrsAt r2 n).get k
+    | none, none => True
+    | _, _ => False := by
+  have hiff : (∀ x ∈ qe, x.1 < g.nodes.length) ↔ (∀ x ∈ qe', x.1 < g.nodes.length) :=
+    ⟨fun h x hx => h x (hpe.mem_iff.mpr hx), fun h x hx => h x (hpe.mem_iff.mp hx)⟩
+  simp only [phaseGraph]
+  by_cases hall : ∀ x ∈ qe, x.1 < g.nodes.length
+  · rw [if_pos hall, if_pos (hiff.mp hall)]
+    have hedges := OrderFree.edges_order_free g (ends qe) (ends qe') (hpe.map _) hinv
+    have hflat : (flat qa).Perm (flat qa') := hpa.flatMap_right _
+    have hA := C08_node_attrs_order_free (OrderFree.addEdges g (ends qe)) (flat qa) (flat qa') hflat
+    have hB := gassign_congr (OrderFree.addEdges g (ends qe)) (OrderFree.addEdges g (ends qe')) (flat qa') hedges.2.1
+      (fun n => by rw [attrsAt_addEdges, attrsAt_addEdges])
+    cases h1 : gassign (OrderFree.addEdges g (ends qe)) (flat qa) with
+    | some r1 =>
+      cases hm : gassign (OrderFree.addEdges g (ends qe)) (flat qa') with
+      | none => rw [h1, hm] at hA; exact hA.elim
+      | some rm =>
+        rw [h1, hm] at hA
+        cases h2 : gassign (OrderFree.addEdges g (ends qe')) (flat qa') with
+        | none => rw [hm, h2] at hB; exact hB.elim
+        | some r2 =>
+          rw [hm, h2] at hB
+          dsimp only
+          refine ⟨hA.1.trans hB.1, fun a b => ?_, fun n k => ?_⟩
+          · rw [getEdge_gassign _ _ _ h1, getEdge_gassign _ _ _ h2]; exact hedges.1 a b
+          · rw [hA.2 n k, hB.2 n]
+    | none =>
+      cases hm : gassign (OrderFree.addEdges g (ends qe)) (flat qa') with
+      | some rm => rw [h1, hm] at hA; exact hA.elim
+      | none =>
+        cases h2 : gassign (OrderFree.addEdges g (ends qe')) (flat qa') with
+        | some r2 => rw [hm, h2] at hB; exact hB.elim
+        | none => trivial
+  · rw [if_neg hall, if_neg (fun h => hall (hiff.mpr h))]
+    trivial
+
+
+theorem run_evaluatePhase_values (cfg : Cfg) (ef : Nat) (qe : List EStmt) (qa : List VStmt) (t : MSt LSt)
+    (hc : t.ps.cancelAt = none) (he : t.rest.edgeQ = qe.map toEStmt) (ha : t.rest.attrQ = qa.map toLStmt)
+    (hp : t.rest.printQ = []) (hth : t.rest.thunks = []) (hce : t.rest.cells = []) :
+    match phaseGraph t.graph qe qa with
+    | some g' => ∃ t', Prog.run (evaluatePhase cfg (ef + 1)) t = .ok () t' ∧ t'.graph = g'
+    | none => ClosedAgree.isFail (Prog.run (evaluatePhase cfg (ef + 1)) t) := by
+  unfold Lazy.evaluatePhase
+  simp only [getR, primP, Bind.bind, Prog.bind, Prog.run]
+  -- the three queues are those of the initial state
+  rw [he, ha, hp]
+  have h1 := run_evalQueue_edges cfg ef qe t hc
+  simp only [phaseGraph]
+  by_cases hall : ∀ x ∈ qe, x.1 < t.graph.nodes.length
+  · rw [if_pos hall] at h1 ⊢
+    obtain ⟨t1, hr1, hg1, hc1, hrest1⟩ := h1
+    have hb : ∀ {β : Type} (k : Unit → LM β), Prog.run (Prog.bind (evalQueue cfg (ef + 1) (qe.map toEStmt)) k) t = Prog.run (k ()) t1 := by
+      intro β k
+      have := Prog.run_bind (evalQueue cfg (ef + 1) (qe.map toEStmt)) k t
+      rw [hr1] at this
+      exact this
+    rw [hb]
+    have h2 := run_evalQueue_values cfg ef qa t1 hc1
+    rw [hg1] at h2
+    cases hg : gassign (OrderFree.addEdges t.graph (ends qe)) (flat qa) with
+    | none =>
+      rw [hg] at h2
+      dsimp only
+      have := Prog.run_bind (evalQueue cfg (ef + 1) (qa.map toLStmt))
+        (fun _ => Prog.bind (evalQueue cfg (ef + 1) []) fun _ => Prog.prim (fun r => (Except.ok r, r)) fun s =>
+          Prog.bind (forceAllThunks cfg (ef + 1) s.thunks.length 0) fun _ => Prog.prim (fun r => (Except.ok r, r)) fun s =>
+            forceAllCells cfg (ef + 1) ((s.cells.map (·.1)).mergeSort (fun a b => decide (a ≤ b)))) t1
+      cases hr2 : Prog.run (evalQueue cfg (ef + 1) (qa.map toLStmt)) t1 with
+      | ok _ _ => rw [hr2] at h2; exact h2.elim
+      | fail f t2 =>
+        rw [hr2] at this
+        show ClosedAgree.isFail (Prog.run (evalQueue cfg (ef + 1) (qa.map toLStmt) >>= _) t1)
+        rw [this]
+        trivial
+    | some g2 =>
+      rw [hg] at h2
+      obtain ⟨t2, hr2, hg2, hc2, hth2, hce2⟩ := h2
+      dsimp only
+      have := Prog.run_bind (evalQueue cfg (ef + 1) (qa.map toLStmt))
+        (fun _ => Prog.bind (evalQueue cfg (ef + 1) []) fun _ => Prog.prim (fun r => (Except.ok r, r)) fun s =>
+          Prog.bind (forceAllThunks cfg (ef + 1) s.thunks.length 0) fun _ => Prog.prim (fun r => (Except.ok r, r)) fun s =>
+            forceAllCells cfg (ef + 1) ((s.cells.map (·.1)).mergeSort (fun a b => decide (a ≤ b)))) t1
+      rw [hr2] at this
+      refine ⟨t2, ?_, hg2⟩
+      show Prog.run (evalQueue cfg (ef + 1) (qa.map toLStmt) >>= _) t1 = _
+      rw [this]
+      have e1 : t2.rest.thunks = [] := by rw [hth2, hrest1, hth]
+      have e2 : t2.rest.cells = [] := by rw [hce2, hrest1, hce]
+      simp [evalQueue, Bind.bind, Prog.bind, Prog.run, Pure.pure, e1, e2, forceAllThunks, forceAllCells]
+  · rw [if_neg hall] at h1 ⊢
+    cases hr1 : Prog.run (evalQueue cfg (ef + 1) (qe.map toEStmt)) t with
+    | ok _ _ => rw [hr1] at h1; exact h1.elim
+    | fail f t1 =>
+      have := Prog.run_bind (evalQueue cfg (ef + 1) (qe.map toEStmt))
+        (fun _ => Prog.bind (evalQueue cfg (ef + 1) (qa.map toLStmt)) fun _ => Prog.bind (evalQueue cfg (ef + 1) []) fun _ =>
+          Prog.prim (fun r => (Except.ok r, r)) fun s =>
+          Prog.bind (forceAllThunks cfg (ef + 1) s.thunks.length 0) fun _ => Prog.prim (fun r => (Except.ok r, r)) fun s =>
+            forceAllCells cfg (ef + 1) ((s.cells.map (·.1)).mergeSort (fun a b => decide (a ≤ b)))) t
+      rw [hr1] at this
+      show ClosedAgree.isFail (Prog.run (evalQueue cfg (ef + 1) (qe.map toEStmt) >>= _) t)
+      rw [this]
+      trivial
+
+
+/-- **the evaluate phase does not depend on the order in which the statements were queued.** Two lazy states that hold the
+same graph and, in their edge and attribute queues, the same value-level statements in different orders (what reordering
+the stanzas of a file produces once the queued targets and values are known), with nothing left to force:
+`Lazy.evaluatePhase` (the model of `LazyGraph::evaluate` followed by the two `evaluate_all`) succeeds on both or fails on
+both, and after success the two graphs have the same nodes, the same edges with the same attributes, and every node
+answers every attribute lookup alike. -/
+theorem C08_evaluate_phase_order_free (cfg : Cfg) (ef : Nat) (qe qe' : List EStmt) (qa qa' : List VStmt)
+    (hpe : qe.Perm qe') (hpa : qa.Perm qa') (t t' : MSt LSt) (hg : t'.graph = t.graph) (hinv : CGraph.Inv t.graph)
+    (hc : t.ps.cancelAt = none) (hc' : t'.ps.cancelAt = none)
+    (he : t.rest.edgeQ = qe.map toEStmt) (ha : t.rest.attrQ = qa.map toLStmt)
+    (he' : t'.rest.edgeQ = qe'.map toEStmt) (ha' : t'.rest.attrQ = qa'.map toLStmt)
+    (hp : t.rest.printQ = []) (hth : t.rest.thunks = []) (hce : t.rest.cells = [])
+    (hp' : t'.rest.printQ = []) (hth' : t'.rest.thunks = []) (hce' : t'.rest.cells = []) :
+    match Prog.run (evaluatePhase cfg (ef + 1)) t, Prog.run (evaluatePhase cfg (ef + 1)) t' with
+    | .ok _ r1, .ok _ r2 => r1.graph.nodes.length = r2.graph.nodes.length ∧
+        (∀ a b, r1.graph.getEdge a b = r2.graph.getEdge a b) ∧
+        ∀ n k, (attrsAt r1.graph n).get k = (attrsAt r2.graph n).get k
+    | .fail _ _, .fail _ _ => True
+    | _, _ => False := by
+  have h1 := run_evaluatePhase_values cfg ef qe qa t hc he ha hp hth hce
+  have h2 := run_evaluatePhase_values cfg ef qe' qa' t' hc' he' ha' hp' hth' hce'
+  rw [hg] at h2
+  have hperm := phaseGraph_perm t.graph hinv qe qe' qa qa' hpe hpa
+  cases hg1 : phaseGraph t.graph qe qa with
+  | some g1 =>
+    cases hg2 : phaseGraph t.graph qe' qa' with
+    | some g2 =>
+      rw [hg1] at h1; rw [hg2] at h2; rw [hg1, hg2] at hperm
+      obtain ⟨r1, hr1, e1⟩ := h1
+      obtain ⟨r2, hr2, e2⟩ := h2
+      rw [hr1, hr2]
+      dsimp only
+      rw [e1, e2]
+      exact hperm
+    | none => rw [hg1, hg2] at hperm; exact hperm.elim
+  | none =>
+    cases hg2 : phaseGraph t.graph qe' qa' with
+    | some g2 => rw [hg1, hg2] at hperm; exact hperm.elim
+    | none =>
+      rw [hg1] at h1; rw [hg2] at h2
+      cases hr1 : Prog.run (evaluatePhase cfg (ef + 1)) t with
+      | ok _ _ => rw [hr1] at h1; exact h1.elim
+      | fail _ _ =>
+        cases hr2 : Prog.run (evaluatePhase cfg (ef + 1)) t' with
+        | ok _ _ => rw [hr2] at h2; exact h2.elim
+        | fail _ _ => trivial
+
+/-- non-vacuity: a state with one queued edge and two queued attribute statements meets the hypotheses -/
+example : ∃ t : MSt LSt, t.rest.edgeQ = [((0 : Nat), (1 : Nat), (default : StmtCtx))].map toEStmt ∧
+    t.rest.attrQ = [((0 : Nat), (default : StmtCtx), [("k", Val.int 1)]), (1, default, [("k", .int 2)])].map toLStmt ∧
+    t.rest.printQ = [] ∧ t.rest.thunks = [] ∧ t.rest.cells = [] ∧ t.ps.cancelAt = none :=
+  ⟨{ graph := { nodes := [{ edges := [], attrs := [] }, { edges := [], attrs := [] }] },
+     rest := { locals := default, thunks := [], cells := [], edgeQ := [((0 : Nat), (1 : Nat), (default : StmtCtx))].map toEStmt,
+               attrQ := [((0 : Nat), (default : StmtCtx), [("k", Val.int 1)]), (1, default, [("k", .int 2)])].map toLStmt,
+               printQ := [], prevDbg := [] },
+     ps := { polls := 0, cancelAt := none } }, rfl, rfl, rfl, rfl, rfl, rfl⟩
+
+end EvaluatePhase
 
 /-- success criterion: a single assignment fails exactly when a different value is present -/
 theorem C08_conflict_iff (m : F) (k : String) (v : Val) :
